@@ -55,7 +55,7 @@ class SymSeq(SProto):
         if self.kind == "iterator":
             I.raise_("TypeError", "'generator' object is not subscriptable")
         if isinstance(k, tuple):
-            raise OutOfSubset("slice of a symbolic sequence")
+            return self.slice(I, k[1], k[2])
         if not isinstance(k, SNum):
             I.raise_("TypeError", "indices must be integers")
         i = k.t
@@ -64,6 +64,62 @@ class SymSeq(SProto):
         if I.P.branch(z3.And(i < 0, i >= -self.n)):
             return self.at(self.n + i)
         I.raise_("IndexError", "index out of range")
+
+    def slice(self, I, lo, hi):
+        """seq[lo:hi] (no step) with Python's clamping of the bounds: a new sequence of the same kind"""
+        if self.extended is not None:
+            raise OutOfSubset("slice of a sequence with non-finite elements")
+        n = self.n
+
+        def bound(b, default):
+            if b is None or b is SNone:
+                return default
+            if isinstance(b, SBool):
+                b = I.bool_to_num(b)
+            if not (isinstance(b, SNum) and b.is_int):
+                I.raise_("TypeError", "slice indices must be integers or None")
+            t = b.t
+            if isinstance(t, int):
+                t = z3.IntVal(t)
+            neg = z3.If(t + n < 0, z3.IntVal(0), t + n)
+            return z3.If(t < 0, neg, z3.If(t > n, n, t))
+
+        zero = z3.IntVal(0)
+        a = bound(lo, zero)
+        b = bound(hi, n if z3.is_expr(n) else z3.IntVal(n))
+        ln = z3.If(b - a < 0, zero, b - a)
+        j = z3.Int("j!slice%d" % (_tok[0] + 1))
+        return SymSeq(self.kind, z3.simplify(ln), z3.Lambda([j], z3.Select(self.elems, j + a)))
+
+    def concat(self, I, other, reflected):
+        """self + other for lists / tuples (a new sequence); other: SymSeq of the same kind or a concrete
+        tuple / list of numbers"""
+        if isinstance(other, SymSeq):
+            if other.kind != self.kind:
+                I.raise_("TypeError", "can only concatenate %s to %s" % (self.kind, self.kind))
+            on, oel = other.n, other.elems
+            if other.extended is not None:
+                raise OutOfSubset("concatenation of sequences with non-finite elements")
+        else:
+            if isinstance(other, STuple):
+                okind, items = "tuple", other.items
+            elif isinstance(other, SRef) and isinstance(other.o, HList):
+                okind, items = "list", other.o.items
+            else:
+                return NotImplemented
+            if okind != self.kind:
+                I.raise_("TypeError", "can only concatenate %s to %s" % (self.kind, self.kind))
+            if not all(isinstance(x, SNum) and not x.extended for x in items):
+                raise OutOfSubset("concatenation of a symbolic sequence with non-numbers")
+            on = z3.IntVal(len(items))
+            oel = z3.K(IntS, z3.RealVal(0))
+            for idx, x in enumerate(items):
+                oel = z3.Store(oel, idx, x.real())
+        if self.extended is not None:
+            raise OutOfSubset("concatenation of sequences with non-finite elements")
+        (an, ael), (bn, bel) = ((on, oel), (self.n, self.elems)) if reflected else ((self.n, self.elems), (on, oel))
+        j = z3.Int("j!cat%d" % (_tok[0] + 1))
+        return SymSeq(self.kind, z3.simplify(an + bn), z3.Lambda([j], z3.If(j < an, z3.Select(ael, j), z3.Select(bel, j - an))))
 
     def py_setitem(self, I, k, v):
         if self.kind == "tuple":
@@ -107,6 +163,8 @@ class SymSeq(SProto):
 
     def py_binop(self, I, op, other, reflected):
         if self.kind != "numpy.ndarray":
+            if self.kind in ("list", "tuple") and isinstance(op, ast.Add):
+                return self.concat(I, other, reflected)
             return NotImplemented
         if isinstance(op, (ast.USub,)):
             return self.map_term(I, lambda e: -e)
